@@ -306,3 +306,20 @@ Definition mod_value_okb (m : codec_module) (v : val) : bool :=
   | (MFastStr | MBytes), VB l => zlen l <? two64
   | _, _ => false
   end.
+
+(* ---------------------------------------------------------------- vocabulary of the theorem statements *)
+Definition is_fixed_mod (m : codec_module) : bool := match fixed_of m with Some _ => true | None => false end.
+Definition scalar_mod (m : codec_module) : bool := is_varint_mod m || is_fixed_mod m || is_len_mod m.
+
+Definition numeric_mod (m : codec_module) : bool := is_varint_mod m || is_fixed_mod m.
+
+(* ghost units charged when the payload of [v] is decoded *)
+Definition payload_cost (m : codec_module) (v : val) : Z := if is_len_mod m then zlen (vbytes v) else 0.
+
+(* the loop a message's merge performs on the records of one repeated field *)
+Fixpoint merge_records (m : codec_module) (n : nat) (vs : list val) : M (list val) :=
+  match n with
+  | O => ret vs
+  | S n' => let+ k := decode_key in let+ vs' := merge_repeated m (snd k) vs in merge_records m n' vs'
+  end.
+
